@@ -1,13 +1,13 @@
-(* NEEDS: Interp/RfiModel.vo Interp/SplineModel.vo Interp/SigmaSplineModel.vo *)
+(* NEEDS: Interp/RfiModel.vo Interp/SplineModel.vo Interp/SigmaSplineModel.vo Interp/ApplyFreqModel.vo *)
 (* Extraction of the interpolation models (C10).  Only ExtrOcamlBasic's directives are in effect;
    nat, positive, Z, Q, Qc stay as the extracted inductive types.  The constants EPS, 10*EPS and
    MIN_DX are arguments of the models; the driver receives the regenerated values from the check. *)
 Require Extraction.
 Require Import ExtrOcamlBasic.
 Require Import List ZArith QArith Qcanon.
-Require Import LV.Base.QcI LV.Interp.QOrd LV.Interp.RfiModel LV.Interp.SplineModel LV.Interp.SigmaSplineModel.
+Require Import LV.Base.QcI LV.Interp.QOrd LV.Interp.RfiModel LV.Interp.SplineModel LV.Interp.SigmaSplineModel LV.Interp.ApplyFreqModel.
 Extraction Language OCaml.
 Set Extraction KeepSingleton.
 Extraction "models_interp.ml"
   QI qre qim qq Qnum Qden this qi_nrm
-  rfi_full rfi rfi_run rfi_order spline_interp sigma_interp.
+  rfi_full rfi rfi_run rfi_order spline_interp sigma_interp apply_trace apply_terms.
